@@ -372,6 +372,28 @@ def check_full_report(sheets, exp, run, schedule, props):
                             out.append(("C19", f"Summary line {asset}/{yr} carries no link although the year has detail rows"))
                     elif l0 != (f"{asset} Tax", wantr):
                         out.append(("C19", f"Summary line {asset}/{yr} links to {l0}, first gain/loss row of that year is row {wantr} of '{asset} Tax'"))
+    # ---- Summary sheet: one line per yearly line of every asset, in asset order, with the same figures as the asset's own summary table
+    if "C13" in props:
+        summ = sheets.get("Summary", [])
+        lines = []
+        for row in summ[3:]:
+            v = [cell_val(c)[0] for c in row[:8]]
+            if v[0] in (None, "") and v[1] in (None, ""):
+                continue
+            lines.append(v)
+        want = []
+        for asset in sorted(exp):
+            for yl in exp[asset][1].yearly_gain_loss_list:
+                want.append([yl.year, yl.asset, yl.fiat_gain_loss, "LONG" if yl.is_long_term_capital_gains else "SHORT", yl.transaction_type.value.upper(), yl.crypto_amount, yl.fiat_amount,
+                             yl.fiat_cost_basis])
+        if len(lines) != len(want):
+            out.append(("C13", f"Summary sheet has {len(lines)} lines, the assets have {len(want)} yearly lines in all"))
+        else:
+            for k, (g, w) in enumerate(zip(lines, want)):
+                bad = [c for c in range(8) if not ((str(g[c]) == str(w[c]) or (c == 0 and close(g[c], Fr(w[c])))) if isinstance(w[c], (str, int)) else close(g[c], Fr(str(w[c]))))]
+                if bad:
+                    out.append(("C13", f"Summary sheet line {k + 1} {g} differs from the computed yearly line {[str(x) for x in w]} in columns {bad}"))
+                    break
     # ---- Legend
     if "C13" in props:
         leg = sheets.get("Legend", [])
@@ -384,6 +406,11 @@ def check_full_report(sheets, exp, run, schedule, props):
                 if m.upper() not in txt:
                     out.append(("C13", f"Legend states accounting method {txt!r}, the computation used {sorted(set(schedule.values()))}"))
                     break
+            if len(schedule) > 1:
+                for y, m in schedule.items():
+                    if f"{y}:{m.upper()}" not in txt.replace(" ", ""):
+                        out.append(("C13", f"Legend states {txt!r}: the schedule entry {y}:{m.upper()} used by the computation is missing"))
+                        break
             for label, d in (("From Date Filter", fd), ("To Date Filter", td)):
                 r = find_row(leg, label)
                 got = str(leg[r][1][0]) if r is not None else None
